@@ -20,6 +20,8 @@ pub enum Case {
     SpecDecode { shp: Vec<u8>, expected: String },
     /// C08: pairs through the complete Writer (real dbase)
     DbfHist { base: String, ops: Vec<crate::extra::PairOp> },
+    /// C20: geo-types / geo-traits conversions
+    Geo(crate::extra::GeoCase),
     Raw(String),
 }
 
@@ -62,6 +64,7 @@ pub fn show_case(c: &Case) -> String {
         }
         Case::SpecDecode { shp, .. } => format!("specdecode {}", hex(shp)),
         Case::DbfHist { base, ops } => format!("dbfhist {} {} {}", base, ops.len(), ops.iter().map(|o| o.tok()).collect::<Vec<_>>().join(" ")).trim_end().to_string(),
+        Case::Geo(g) => crate::extra::show_geocase(g),
         Case::Raw(s) => s.clone(),
     }
 }
@@ -145,6 +148,7 @@ pub fn parse_case(line: &str) -> Option<Case> {
             }
             Case::Rhist { target, shp, shx, ops }
         }
+        "geo" => Case::Geo(crate::extra::parse_geocase(&mut t)?),
         "dbfhist" => {
             let base = t.next()?.to_string();
             let n = t.nat()?;
@@ -183,6 +187,7 @@ pub fn run_case(c: &Case) -> String {
         Case::Ring(d, r, ps) => v_ring(*d, *r, ps),
         Case::SpecDecode { expected, .. } => expected.clone(),
         Case::DbfHist { base, ops } => crate::extra::v_dbfhist(base, ops),
+        Case::Geo(g) => crate::extra::run_geocase(g),
         Case::Raw(_) => "unsupported".into(),
     }
 }
